@@ -42,6 +42,51 @@ Definition d_name (o : obs) : option (option (list N)) :=
   | OT t [x] => if String.eqb t "Some" then match d_bytes x with Some b => Some (Some b) | None => None end else None
   | _ => None
   end.
+(* the literal parsers (Literals.literal) and, for terminal.Regexp, the expression (Regex.regex) *)
+Definition d_ranges (o : obs) : option (list (N * N)) :=
+  match o with
+  | OL l => fold_right (fun x acc => match x, acc with
+                                     | OT _ [ON a; ON b], Some t | OL [ON a; ON b], Some t => Some ((a, b) :: t)
+                                     | _, _ => None end) (Some []) l
+  | _ => None
+  end.
+Fixpoint d_regex (o : obs) : option Regex.regex :=
+  match o with
+  | OT t l =>
+    if String.eqb t "REps" then Some Regex.REps
+    else if String.eqb t "RClass" then
+      match l with [OB neg; rs] => option_map (Regex.RClass neg) (d_ranges rs) | _ => None end
+    else if String.eqb t "RCat" then
+      match l with [a; b] => match d_regex a, d_regex b with Some a', Some b' => Some (Regex.RCat a' b') | _, _ => None end | _ => None end
+    else if String.eqb t "RAlt" then
+      match l with [a; b] => match d_regex a, d_regex b with Some a', Some b' => Some (Regex.RAlt a' b') | _, _ => None end | _ => None end
+    else if String.eqb t "RStar" then match l with [a] => option_map Regex.RStar (d_regex a) | _ => None end
+    else if String.eqb t "RPlus" then match l with [a] => option_map Regex.RPlus (d_regex a) | _ => None end
+    else if String.eqb t "ROpt" then match l with [a] => option_map Regex.ROpt (d_regex a) | _ => None end
+    else if String.eqb t "RRep" then match l with [ON n; a] => option_map (Regex.RRep (N.to_nat n)) (d_regex a) | _ => None end
+    else if String.eqb t "RGroup" then match l with [a] => option_map Regex.RGroup (d_regex a) | _ => None end
+    else None
+  | _ => None
+  end.
+Definition d_literal (o : obs) : option literal :=
+  match o with
+  | OT t l =>
+    if String.eqb t "LInteger" then match l with [] => Some LInteger | _ => None end
+    else if String.eqb t "LFloat" then match l with [] => Some LFloat | _ => None end
+    else if String.eqb t "LChar" then match l with [] => Some LChar | _ => None end
+    else if String.eqb t "LDuration" then match l with [] => Some LDuration | _ => None end
+    else if String.eqb t "LString" then match l with [OB b] => Some (LString b) | _ => None end
+    else if String.eqb t "LBool" then
+      match l with [a; b] => match d_bytes a, d_bytes b with Some a', Some b' => Some (LBool a' b') | _, _ => None end | _ => None end
+    else if String.eqb t "LNil" then match l with [a] => option_map LNil (d_bytes a) | _ => None end
+    else if String.eqb t "LWord" then match l with [a] => option_map LWord (d_bytes a) | _ => None end
+    else if String.eqb t "LOp" then match l with [a] => option_map LOp (d_bytes a) | _ => None end
+    else if String.eqb t "LRune" then match l with [ON c] => Some (LRune c) | _ => None end
+    else if String.eqb t "LRegexp" then
+      match l with [re; ON g] => option_map (fun r => LRegexp r g) (d_regex re) | _ => None end
+    else None
+  | _ => None
+  end.
 Fixpoint d_pexpr (o : obs) : option pexpr :=
   let fix all (l : list obs) : option (list pexpr) :=
       match l with
@@ -51,7 +96,11 @@ Fixpoint d_pexpr (o : obs) : option pexpr :=
   match o with
   | OT t l =>
     if String.eqb t "PTerm" then
-      match l with [OT u [ON c]] => if String.eqb u "TRune" then Some (PTerm (TRune c)) else None | _ => None end
+      match l with
+      | [OT u [ON c]] => if String.eqb u "TRune" then Some (PTerm (TRune c)) else None
+      | [OT u [lit]] => if String.eqb u "TLit" then option_map (fun x => PTerm (TLit x)) (d_literal lit) else None
+      | _ => None
+      end
     else if String.eqb t "PEmpty" then Some PEmpty
     else if String.eqb t "PEnd" then Some PEnd
     else if String.eqb t "PRef" then match l with [ON k] => Some (PRef k) | _ => None end
